@@ -94,6 +94,10 @@ CONSTS = [
 STR_CONSTS = [
     # C01
     ("C01_STATIC_KEY_DOMAIN", NOISE, r'const\s+STATIC_KEY_DOMAIN\s*:\s*&str\s*=\s*"([^"\\\\]*)"\s*;'),
+    ("C01_TLS_SIGNING_PREFIX", "src/crypto/tls/certificate.rs",
+     r'const\s+P2P_SIGNING_PREFIX\s*:\s*\[u8;\s*\d+\]\s*=\s*\*b"([^"\\\\]*)"\s*;'),
+    ("C01_WEBRTC_PROLOGUE_PREFIX", "src/transport/webrtc/opening.rs",
+     r'fn\s+noise_prologue[^{]*\{\s*const\s+PREFIX\s*:\s*&\[u8\]\s*=\s*b"([^"\\\\]*)"\s*;'),
 ]
 
 
@@ -155,6 +159,11 @@ def main():
     import gen_c18_sites
     counts, miss = gen_c18_sites.generate(REPO)
     vals.update(counts)      # PEER_ID_SITES
+    missing += list(miss)
+    # C10: the DialError variants and the arms of AddressStore::error_score -> coq/gen/DialErrors.v
+    import gen_c10_errors
+    counts, miss = gen_c10_errors.generate(REPO)
+    vals.update(counts)      # C10_DIAL_ERROR_LEAVES, C10_ERROR_SCORE_ARMS
     missing += list(miss)
     str_names = []
     for name, path, rx in STR_CONSTS:
